@@ -30,7 +30,7 @@ def unhex(s):
 class Gen:
     def __init__(self, rng, max_depth=3, big_tuples=True, arith=True, consts=True, families=("uniform",), arrays=False,
                  tuple_member_kinds=False, underscore_classes=False, more_ops=False, more_forms=False, defaults=False,
-                 pow_ops=True):
+                 pow_ops=True, log_ops=False):
         # opt-in extensions (all off by default; with them off the random stream is unchanged):
         #   tuple_member_kinds  arithmetic priors and int constants as tuple members, int constants as kwargs
         #   underscore_classes  classes CE / LC (constructor-argument names containing "_")
@@ -43,6 +43,7 @@ class Gen:
         self.underscore_classes = underscore_classes
         self.more_ops = more_ops
         self.pow_ops = pow_ops          # with more_ops: also generate ** (oracle level only)
+        self.log_ops = log_ops          # with more_ops: also af.Log(x) / af.Log10(x) (numpy: oracle level only)
         self.more_forms = more_forms
         self.defaults = defaults
         self.rng = rng
@@ -89,9 +90,10 @@ class Gen:
         self.features.add("arith")
         if self.more_ops and self.rng.random() < 0.5:
             self.features.add("ops2")
-            kind = self.rng.choice(["-", "-", "-", "%", "%", "//", "//", "neg", "neg", "abs", "abs"] + (["**"] if self.pow_ops else []))
+            kind = self.rng.choice(["-", "-", "-", "%", "%", "//", "//", "neg", "neg", "abs", "abs"] + (["**"] if self.pow_ops else [])
+                                   + (["log", "log10"] if self.log_ops else []))
             a = self.prior_ref() if (depth >= 1 or self.rng.random() < 0.6) else self.arith_expr(depth + 1)
-            if kind in ("neg", "abs"):
+            if kind in ("neg", "abs", "log", "log10"):
                 return {"t": "unary", "op": kind, "a": a}
             if kind == "**":
                 return {"t": "arith", "op": "**", "l": a, "r": {"t": "const", "v": self.rng.choice([2.0, 3.0]).hex()}}
